@@ -4,7 +4,10 @@
 // (they are not edit scripts); only "model = Go" and "no panic".
 package main
 
-import "fmt"
+import (
+	"fmt"
+	"strings"
+)
 
 var (
 	wCols   = []string{"a", "b", "c", "d"}
@@ -32,18 +35,59 @@ func (c *ctx) wOpt(l []string, numNone, den int) *string {
 
 func rngPick(c *ctx, l []string) string { return l[c.r.Intn(len(l))] }
 
+// wildTypes / wildDefs: per dialect pools; the default pools stay inside the fragment of
+// literals the MySQL/PostgreSQL models compare exactly (DiffDialects.v header).
+func (c *ctx) wildTypes() []string {
+	if c.p.dialect == "sqlite" {
+		return wTypes
+	}
+	return c.p.types
+}
+
+func (c *ctx) wildDef(key string) string {
+	switch c.p.dialect {
+	case "mysql":
+		switch {
+		case isIntKey(key) || key == "int unsigned":
+			return rngPick(c, []string{"1", "2", "'1'", "01", "+1", "-1", "(1)", "a", " 1", "'2'"})
+		case key == "double" || key == "float" || strings.HasPrefix(key, "decimal"):
+			return rngPick(c, []string{"1.5", "1.50", "2.5", "'1.5'", "01.5", "-0", "0", "(1.5)", "x", ".5", "0.5", "5.", "5"})
+		case key == "bool":
+			return rngPick(c, []string{"1", "0", "'1'", "true", "TRUE", "2", "(1 = 2)", "false", "'0'"})
+		case key == "datetime" || key == "timestamp" || key == "date":
+			return rngPick(c, []string{"CURRENT_TIMESTAMP", "current_timestamp", "(CURRENT_TIMESTAMP)", "'2020-01-01'", "now()", "CURRENT_TIMESTAMP(6)", "2020-01-01"})
+		case isStringKey(key) || strings.HasPrefix(key, "enum"):
+			return rngPick(c, []string{"a", "'a'", "\"a\"", "'a''b'", "\"a'b\"", "b", "'b'", "''", "'"})
+		}
+		return rngPick(c, []string{"'{}'", "{}", "'[]'", "('{}')", "'ab'", "ab", "''ab''"})
+	case "postgres":
+		return rngPick(c, []string{"1", "'1'", "1::integer", "'a'::text", "'a'", "a", "'a'::character varying", "'a'::char(3)", "nextval('s'::regclass)", "a::b::c", "::", "x::", "'a''b'", "a'b", "'a'::Text ", "2"})
+	}
+	return rngPick(c, wDefs)
+}
+
 func (c *ctx) wCol(name string) Col {
-	col := Col{Name: name, Type: rngPick(c, wTypes), Null: c.r.Bool()}
+	col := Col{Name: name, Type: rngPick(c, c.wildTypes()), Null: c.r.Bool()}
 	if c.r.Chance(1, 200) {
 		col.Type = ""
 	}
 	if c.r.Chance(1, 2) {
-		col.Def = &Def{Raw: c.r.Bool(), V: rngPick(c, wDefs)}
+		col.Def = &Def{Raw: c.r.Bool(), V: c.wildDef(col.Type)}
 	}
 	if c.r.Chance(1, 4) {
 		col.Gen = &Gen{Expr: rngPick(c, wExprs), Type: rngPick(c, wGenT)}
+		if c.p.dialect == "mysql" && c.r.Chance(1, 4) {
+			col.Gen.Type = "PERSISTENT"
+		}
 	}
 	col.Comment = c.wOpt(wCmt, 2, 3)
+	if c.p.charset && isStringKey(col.Type) && c.r.Chance(1, 2) {
+		cc := [][2]string{{"latin1", "latin1_swedish_ci"}, {"latin1", "latin1_bin"}, {"utf8mb4", "utf8mb4_bin"}, {"utf8mb4", "utf8mb4_0900_ai_ci"}}[c.r.Intn(4)]
+		col.Charset, col.Collation = sp(cc[0]), sp(cc[1])
+	}
+	if c.p.identity && c.r.Chance(1, 5) {
+		col.Identity = &Ident{Gen: rngPick(c, []string{"", "BY DEFAULT", "ALWAYS"}), Start: int64(c.r.Intn(3)), Inc: int64(c.r.Intn(3))}
+	}
 	return col
 }
 
@@ -76,7 +120,23 @@ func (c *ctx) wIdx() Idx {
 		i.Pred = sp(rngPick(c, wExprs))
 	}
 	i.Comment = c.wOpt(wCmt, 3, 4)
-	i.Origin = c.wOpt(wOrigin, 1, 2)
+	switch c.p.dialect {
+	case "sqlite":
+		i.Origin = c.wOpt(wOrigin, 1, 2)
+	case "mysql":
+		i.Name = rngPick(c, []string{"i1", "i2", "i3", "", "a", "b", "a_2", "a_1", "b_3", "a_x", "functional_index", "functional_index_2", "functional"})
+		i.Type = rngPick(c, []string{"", "", "BTREE", "btree", "HASH", "FULLTEXT"})
+		if len(i.Parts) > 0 && i.Parts[0].Col != "" && c.r.Chance(1, 4) {
+			i.Parts[0].Prefix = 5 + 5*c.r.Intn(2)
+		}
+	case "postgres":
+		i.Name = rngPick(c, []string{"i1", "i2", "i3", "", "t_a_key", "t_a_b_key", "t_b_key", "t_a_key1", "t_a_key0", "u_a_key", "t_a_keyx", "12", "t__key"})
+		i.Type = rngPick(c, []string{"", "", "BTREE", "btree", "HASH", "GIN"})
+		i.NullsND = c.r.Chance(1, 5)
+		if c.r.Chance(1, 4) {
+			i.Include = []string{rngPick(c, wCols)}
+		}
+	}
 	return i
 }
 
@@ -98,6 +158,9 @@ func (c *ctx) wFK() FK {
 
 func (c *ctx) wTable(name string) Table {
 	t := Table{Name: name, WithoutRowID: c.r.Chance(1, 5), Strict: c.r.Chance(1, 5)}
+	if c.p.charset {
+		t.Charset, t.Collation = sp("utf8mb4"), sp("utf8mb4_0900_ai_ci")
+	}
 	perm := c.r.Intn(24)
 	cols := append([]string(nil), wCols...)
 	for i := 3; i > 0; i-- {
@@ -296,7 +359,7 @@ func (c *ctx) wild(thorough bool) {
 
 // wildTable runs TableDiff on the first tables of the two schemas (names may differ: error).
 func (c *ctx) wildTable(id string, from, to Schema, mask int) {
-	g1, g2 := build("sqlite", from), build("sqlite", to)
+	g1, g2 := build(c.p.dialect, from), build(c.p.dialect, to)
 	t1, t2 := g1.Tables[0], g2.Tables[0]
 	line := fmt.Sprintf("T %d %s %s", mask, tokSchema(g1), tokSchema(g2))
 	cs, err, pan := c.tableDiff(t1, t2, mask)
@@ -306,7 +369,7 @@ func (c *ctx) wildTable(id string, from, to Schema, mask int) {
 	}
 	if pan != "" {
 		obs = "panic"
-		c.w.Violation(id, "panic", "[sqlite] TableDiff on a random pair panicked: "+pan)
+		c.w.Violation(id, "panic", "["+c.p.dialect+"] TableDiff on a random pair panicked: "+pan)
 	}
 	c.w.Case(id, line, []string{obs})
 	c.w.Count("class:wild-table")
